@@ -70,14 +70,26 @@ func VerifH_C18_CreateThenExtract() {
 	vAssert("archive-opens", rerr == nil)
 	roots, rooterr := rd.Roots()
 	vAssert("single-root", rooterr == nil && len(roots) == 1)
-	_, ierr := rd.Inspect(true)
+	stats, ierr := rd.Inspect(true)
 	vAssert("inspect-accepts", ierr == nil)
+	// the placeholder root was replaced by a block that is in the archive, and `car root` reports it
+	vAssert("root-block-present", ierr == nil && stats.RootsPresent)
+	printed, perr := lib.CarRoot(carPath)
+	vAssert("car-root-is-the-single-root", perr == nil && len(printed) == 1 && printed[0].Equals(roots[0]))
 	vAssert("verify-accepts", lib.VerifyCar(carPath) == nil)
 
 	dst := vFSPath("extracted")
 	vFSMkdir(dst)
 	var sink2 bytes.Buffer
-	err = ExtractCar(vCtxArgs(&sink2, []string{"file", "path"}, []string{"verbose"}, "--file", carPath, dst))
+	if vChoose("fromStdin", 2) == 1 {
+		// extraction from standard input: the streaming store fed by a goroutine
+		ctx := vCtxArgs(&sink2, []string{"file", "path"}, []string{"verbose"}, dst)
+		ctx.App.Reader = bytes.NewReader(file)
+		err = ExtractCar(ctx)
+		vCover("extracted-from-stdin", err == nil)
+	} else {
+		err = ExtractCar(vCtxArgs(&sink2, []string{"file", "path"}, []string{"verbose"}, "--file", carPath, dst))
+	}
 	vAssert("extract-ok", err == nil)
 	base := dst + "/tree"
 	if noWrap {
